@@ -785,14 +785,11 @@ namespace StrTotal
 theorem hostShapeStr_mono {r t : Str} (hsub : ∀ c ∈ r, c ∈ t) (ht : HostShapeStr t) : HostShapeStr r :=
   ⟨fun hm => ht.1 (hsub 64 hm), fun h58 h93 => ht.2 (hsub 58 h58) (hsub 93 h93)⟩
 
-/-- the non-validating `_encode_host` keeps the shape: the result is a bracketed body of the shape
-    (IPv6 literal) or itself of the shape (IPv4, lower-cased reg-name, IDNA output of the shape) -/
-theorem encodeHost_false_shape (o : Oracles) (h0 h1 : Str) (hs : HostShapeStr h0)
-    (hidna : ∀ r, idnaEncode o h0 = .ok r → HostShapeStr r) (he : encodeHost o h0 false = .ok h1) :
+/-- the IP branch keeps the shape: a bracketed body of the shape (IPv6 literal) or a text of the shape (IPv4) -/
+theorem ipRes_false_shape (h0 h1 : Str) (hs : HostShapeStr h0) (hres : HostLemmas.ipRes h0 = some h1) :
     (∃ body, h1 = [91] ++ body ++ [93] ∧ HostShapeStr body) ∨ HostShapeStr h1 := by
   have zone_sub := partition_snd_sub 37 h0
   have pre_sub := StrTotal.partition_fst_sub 37 h0
-  rcases HostLemmas.encodeHost_casesV he with ⟨hres, _⟩ | ⟨_, hreg⟩
   · unfold HostLemmas.ipRes at hres
     cases hp : parseIP (partition 37 h0).1 with
     | none => simp [hp] at hres
@@ -861,23 +858,43 @@ theorem encodeHost_false_shape (o : Oracles) (h0 h1 : Str) (hs : HostShapeStr h0
             · omega
             · exact h93 (zone_sub 93 hm)
         · exact ⟨ipv6ToStr h8, by rw [← hres], htxt 64 (by simp), fun _ => htxt 93 (by simp)⟩
-  · right
-    unfold HostLemmas.regPath at hreg
-    split at hreg
-    · simp only [Bool.false_and, Bool.false_eq_true, if_false] at hreg
+
+theorem lower_shape {h0 : Str} (hs : HostShapeStr h0) : HostShapeStr (lower h0) := by
+  have l93 : 93 ∈ lower h0 → 93 ∈ h0 := by
+    intro hm
+    simp only [lower, List.mem_map] at hm
+    obtain ⟨c, hc, hl⟩ := hm
+    have : c = 93 := by unfold lowerC at hl; split at hl <;> omega
+    rw [← this]; exact hc
+  exact ⟨fun hm => hs.1 ((HostLemmas.mem_lower 64 (by omega) h0).1 hm),
+    fun h58 h93 => hs.2 ((HostLemmas.mem_lower 58 (by omega) h0).1 h58) (l93 h93)⟩
+
+/-- the re-entry (fix 3fbf5b4) keeps the shape as well -/
+theorem encodeHostA_false_shape (o : Oracles) (a h1 : Str) (hs : HostShapeStr a)
+    (he : encodeHostA o a false = .ok h1) :
+    (∃ body, h1 = [91] ++ body ++ [93] ∧ HostShapeStr body) ∨ HostShapeStr h1 := by
+  rcases HostLemmas.encodeHostA_casesV he with ⟨hres, _⟩ | ⟨_, hreg⟩
+  · exact ipRes_false_shape a h1 hs hres
+  · obtain ⟨_, rfl, _⟩ := HostLemmas.regPathA_ok hreg
+    exact Or.inr (lower_shape hs)
+
+/-- the non-validating `_encode_host` keeps the shape: the result is a bracketed body of the shape
+    (IPv6 literal) or itself of the shape (IPv4, lower-cased reg-name, IDNA output of the shape) -/
+theorem encodeHost_false_shape (o : Oracles) (h0 h1 : Str) (hs : HostShapeStr h0)
+    (hidna : ∀ r, idnaEncode o h0 = .ok r → HostShapeStr r) (he : encodeHost o h0 false = .ok h1) :
+    (∃ body, h1 = [91] ++ body ++ [93] ∧ HostShapeStr body) ∨ HostShapeStr h1 := by
+  rcases HostLemmas.encodeHost_casesV he with ⟨hres, _⟩ | ⟨_, hreg⟩
+  · exact ipRes_false_shape h0 h1 hs hres
+  · cases ha : isAscii h0 with
+    | true =>
+      right
+      simp only [HostLemmas.regPath, ha, ↓reduceIte, Bool.false_and, Bool.false_eq_true] at hreg
       cases hreg
-      have l93 : 93 ∈ lower h0 → 93 ∈ h0 := by
-        intro hm
-        simp only [lower, List.mem_map] at hm
-        obtain ⟨c, hc, hl⟩ := hm
-        have : c = 93 := by unfold lowerC at hl; split at hl <;> omega
-        rw [← this]; exact hc
-      exact ⟨fun hm => hs.1 ((HostLemmas.mem_lower 64 (by omega) h0).1 hm),
-        fun h58 h93 => hs.2 ((HostLemmas.mem_lower 58 (by omega) h0).1 h58) (l93 h93)⟩
-    · obtain ⟨r, hr, hreg⟩ := bind_ok hreg
-      simp only [Bool.false_and, Bool.false_eq_true, if_false] at hreg
-      cases hreg
-      exact hidna _ hr
+      exact lower_shape hs
+    | false =>
+      obtain ⟨a, hi, ⟨_, rfl, _⟩ | ⟨_, hA⟩⟩ := HostLemmas.regPath_idn_cases ha hreg
+      · exact Or.inr (hidna _ hi)
+      · exact encodeHostA_false_shape o a h1 (hidna a hi) hA
 
 /-- the raw host `encode_url` caches -/
 theorem cached_rawHost_shape (b : Bool) (h1 : Str)
